@@ -158,7 +158,8 @@ def run_property(prop, tier, seed, replay=None):
     if unknown:
         os.makedirs(os.path.join(VERIF, "replays"), exist_ok=True)
         cases = sorted({v["case"] for v in m["violations"] if v["mechanism"] in unknown and v["case"] is not None})
-        rp = os.path.join(VERIF, "replays", f"{prop}_seed{seed}_{tier}.json")
+        tagm = "" if repo_path() == "/repo" else "_mutant_" + monitor.digest(repo_path())[:6]
+        rp = os.path.join(VERIF, "replays", f"{prop}_seed{seed}_{tier}{tagm}.json")
         with open(rp, "w") as fh:
             json.dump(
                 {
@@ -182,7 +183,7 @@ def run_property(prop, tier, seed, replay=None):
     if unknown and inconclusive:
         lines.append(f"  (also inconclusive: {inconclusive[0][:800]})")
 
-    if replay is None:
+    if replay is None and repo_path() == "/repo":  # evidence only ever comes from /repo itself
         write_evidence(prop, tier, seed, oracle, m, known_hit, unknown, inconclusive, time.time() - t0)
     else:
         for v in m["violations"][:5]:
